@@ -24,7 +24,9 @@ RULE = ('cases = kernels (hand-assembled from TLC behaviours of CUSchedScen, fro
         'distinct = distinct event traces; non-trivial = trace in which at least one barrier is issued by >= 2 wavefronts '
         'of a group, or a wait count is issued while the wavefront has memory operations in flight, or a wavefront ends '
         'while siblings are unfinished')
-TSPEC = {'dirs': ['cusched'], 'module': 'CUSchedTrace.tla', 'cfg': 'CUSchedTrace.cfg', 'timeout': 1500}
+TSPEC = {'dirs': ['cusched'], 'module': 'CUSchedTrace.tla', 'cfg': 'CUSchedTrace.cfg', 'tol': 'CUSchedTraceTol.cfg', 'timeout': 1500}
+# the front end (fetch, decode, issue arbitration, retirement): scenarios with "fe" are validated against both
+FSPEC = {'dirs': ['cusched'], 'module': 'CUFrontTrace.tla', 'cfg': 'CUFrontTrace.cfg', 'tol': 'CUFrontTraceTol.cfg', 'timeout': 1500}
 
 BARRIER_BUFFER = 16  # SchedulerImpl.barrierBufferSize
 SCALE = 6  # cycles per behaviour step when a TLC schedule is turned into latencies
@@ -274,6 +276,74 @@ def fixed_scenarios(thorough=False):
     return out
 
 
+def lockstep_scenarios(rng, thorough=False):
+    """Several small work-groups co-resident on one CU, running kernels of scheduler-internal instructions only
+    (s_nop, s_barrier, s_waitcnt, s_endpgm; no prologue) so that they stay in lock step: several wavefronts are in the
+    scheduler's `internalExecuting` list in the same cycle, and the barrier of one group is released (its wavefronts
+    leave the list) while EvaluateInternalInst is walking over the list.  Instruction-fetch latency and dispatch offsets
+    are swept so that the releasing wavefront takes every position of the list."""
+    out = []
+    body = ['nop', 'nop', 'bar', 'nop', 'w:0:0', 'bar', 'nop', 'end']
+
+    def sc(name, kernels, wgs, lat):
+        return {'name': name, 'kernels': kernels, 'wgs': wgs, 'vals': True,
+                'mem': {'vdef': [5, 5], 'sdef': [5, 5], 'i': [lat, lat], 'seed': 1}}
+    for lat in (1, 2, 3, 5):
+        for d1 in range(7):
+            for d2 in (0, 2, 4, 6):
+                if not thorough and (d1 + d2 + lat) % 2:
+                    continue
+                out.append(sc('lock_%d_%d_%d' % (lat, d1, d2), [{'mode': 'raw', 'nwf': 1, 'body': body}],
+                              [{'k': 0, 'at': a} for a in (0, d1, d2, d1 + d2)], lat))
+    # seeded variation: other bodies, groups of one to three wavefronts, three to eight groups over the four SIMDs
+    for i in range(40 if thorough else 12):
+        ops = [rng.choice(['nop', 'nop', 'bar', 'w:0:0', 'w:15:0']) for _ in range(rng.randint(3, 9))]
+        if 'bar' not in ops:
+            ops.insert(rng.randrange(len(ops) + 1), 'bar')
+        kernels = [{'mode': 'raw', 'nwf': rng.choice([1, 1, 2, 3]), 'body': ops + ['end']}]
+        if rng.random() < 0.4:
+            kernels.append({'mode': 'raw', 'nwf': rng.choice([1, 2]), 'body': ops[:rng.randint(1, len(ops))] + ['end']})
+        wgs = [{'k': rng.randrange(len(kernels)), 'at': rng.randint(0, 8)} for _ in range(rng.randint(3, 8))]
+        out.append(sc('lockr_%d' % i, kernels, wgs, rng.choice([1, 2, 3, 4, 5, 8])))
+    return out
+
+
+def fe_scenarios(rng, thorough=False):
+    """Front-end scenarios (flag "fe": the driver also logs fetches, retirements and what the issue arbiter saw):
+    loops (backward branches: the instruction buffer is flushed and refilled, fetches in flight become stale), early exits
+    and per-wavefront dispatch (forward conditional branches, taken and not taken), 8 to 24 wavefronts over the four SIMDs,
+    instruction memory from 1 to 60 cycles."""
+    ilats = [[1, 1], [2, 12], [20, 60], [1, 40]]
+    # a small one first (the binding self-test corrupts copies of it): 2 groups of 2 wavefronts, a loop, an early exit
+    out = [{'name': 'fe_small', 'fe': True, 'vals': True,
+            'kernels': [{'mode': 'uniform', 'nwf': 2, 'body': ['loop:2', 'alu', 'sld', 'w:15:0', 'bar', 'endloop', 'xge:1', 'gst', 'w:0:0', 'bar']}],
+            'wgs': [{'k': 0, 'at': 0}, {'k': 0, 'at': rng.choice([0, 1, 2])}],
+            'mem': {'vdef': [5, 40], 'sdef': [3, 20], 'i': rng.choice(ilats[:2]), 'seed': rng.randrange(1 << 30)}}]
+    n = 10 if thorough else 2
+    for i in range(n):
+        nwf = rng.choice([2, 3, 4, 8] if thorough else [2, 3, 4])
+        inner = [rng.choice(['alu', 'alu', 'nop', 'sld', 'w:15:0', 'bar']) for _ in range(rng.randint(2, 14 if thorough else 8))]
+        body = ['alu'] * rng.randint(0, 3) + ['loop:%d' % rng.randint(2, 4 if thorough else 3)] + inner + ['endloop']
+        if rng.random() < 0.5:
+            body += ['xge:%d' % rng.randint(1, nwf)]
+        body += ['gst', 'w:0:0', 'bar', 'gld', 'w:0:0', 'out']
+        if i % 2 == 0:
+            # straight-line code longer than the instruction buffer (256 bytes)
+            body += [rng.choice(['alu', 'nop']) for _ in range(rng.randint(70, 90))]
+        if rng.random() < 0.5:
+            body += ['loop:2', 'nop', 'alu', 'endloop']
+        out.append({'name': 'fe_loop%d' % i, 'fe': True, 'kernels': [{'mode': 'uniform', 'nwf': nwf, 'body': body}],
+                    'wgs': [{'k': 0, 'at': rng.choice([0, 0, 2, 7])} for _ in range(rng.randint(2, 3) if thorough else 2)], 'vals': True,
+                    'mem': {'vdef': [5, 40], 'sdef': [3, 20], 'i': ilats[i % len(ilats)], 'seed': rng.randrange(1 << 30)}})
+    for i in range(n if thorough else 1):
+        nwf = rng.choice([3, 4, 5, 8] if thorough else [3, 4, 5])
+        progs = gen_structured(rng, nwf, rng.randint(1, 2), {}, rng.choice([0, 3, 12]))
+        out.append({'name': 'fe_table%d' % i, 'fe': True, 'kernels': [{'mode': 'table', 'progs': progs}],
+                    'wgs': [{'k': 0, 'at': rng.choice([0, 1, 5])} for _ in range(rng.randint(1, 3) if thorough else 2)], 'vals': True,
+                    'mem': {'vdef': [5, 60], 'sdef': [3, 20], 'i': ilats[(i + 2) % len(ilats)], 'seed': rng.randrange(1 << 30)}})
+    return out
+
+
 # --------------------------------------------------------------------------- signatures / statistics
 def _subtrace_facts(recs):
     mode = next((r.get('mode') for r in recs if r['e'] == 'Reset'), None)
@@ -460,6 +530,159 @@ def corruptions():
             ('unreported_group_at_quiescence', drop_quiesce_completion)]
 
 
+def fe_corruptions():
+    """Corruptions of accepted front-end traces; CUFrontTrace.tla has to refuse every one of them."""
+    def issues(recs):
+        return [i for i, r in enumerate(recs) if r['e'] == 'Issue' and 't' in r]
+
+    def pick(recs, rng, pred):
+        c = [i for i in issues(recs) if pred(recs[i])]
+        return rng.choice(c) if c else None
+
+    def skip_instruction(recs, rng):
+        i = pick(recs, rng, lambda r: r['pc'] > 0)
+        if i is None:
+            return None
+        recs[i]['pc'] += 4
+        return recs
+
+    def no_redirect_after_taken_branch(recs, rng):
+        # the instruction after a taken branch is reported at the fall-through address of a non-branch predecessor
+        last = {}
+        for i in issues(recs):
+            r = recs[i]
+            p = last.get(r['w'])
+            if p is not None and r['pc'] != p['pc'] + p['size']:
+                q = [j for j in issues(recs) if recs[j]['w'] == r['w'] and j < i][-2:]
+                if len(q) == 2:
+                    recs[q[1]]['opc'] = 0   # the branch now reads as s_nop: the jump is unexplained
+                    return recs
+            last[r['w']] = r
+        return None
+
+    def decode_of_stale_buffer(recs, rng):
+        i = pick(recs, rng, lambda r: True)
+        recs[i]['ibok'] = 0
+        return recs
+
+    def issue_to_busy_unit(recs, rng):
+        i = pick(recs, rng, lambda r: r['cls'] != 'I')
+        if i is None:
+            return None
+        recs[i]['can'] = 0
+        return recs
+
+    def two_issues_same_unit_same_simd(recs, rng):
+        i = pick(recs, rng, lambda r: True)
+        dup = dict(recs[i])
+        # a second instruction of the same class, same SIMD, same cycle (by the same wavefront's next id)
+        nxt = [j for j in issues(recs) if j > i and recs[j]['w'] == dup['w']]
+        if not nxt:
+            return None
+        j = nxt[0]
+        recs[j]['t'], recs[j]['cls'], recs[j]['simd'], recs[j]['rr'] = dup['t'], dup['cls'], dup['simd'], dup['rr']
+        # keep it adjacent to the first one
+        r = recs.pop(j)
+        recs.insert(i + 1, r)
+        return recs
+
+    def younger_wavefront_first(recs, rng):
+        i = pick(recs, rng, lambda r: True)
+        recs[i]['pool'] = list(recs[i]['pool']) + [[9999, 1, recs[i]['cls'], 1]]
+        return recs
+
+    def round_robin_order_broken(recs, rng):
+        # two instructions of one cycle from different SIMDs swapped
+        idx = issues(recs)
+        for a, b in zip(idx, idx[1:]):
+            if recs[a]['t'] == recs[b]['t'] and recs[a]['simd'] != recs[b]['simd'] and b == a + 1:
+                recs[a], recs[b] = recs[b], recs[a]
+                return recs
+        for a, b in zip(idx, idx[1:]):
+            if recs[a]['t'] == recs[b]['t'] and recs[a]['simd'] != recs[b]['simd']:
+                recs[b]['rr'] = (recs[b]['rr'] + 1) % 4
+                return recs
+        return None
+
+    def retire_dropped(recs, rng):
+        c = [i for i, r in enumerate(recs) if r['e'] == 'Retire' and r['k'] == 'alu']
+        if not c:
+            return None
+        del recs[rng.choice(c)]
+        return recs
+
+    def retire_twice(recs, rng):
+        c = [i for i, r in enumerate(recs) if r['e'] == 'Retire' and r['k'] in ('alu', 'vmem', 'smem', 'wait')]
+        if not c:
+            return None
+        i = rng.choice(c)
+        recs.insert(i + 1, dict(recs[i]))
+        return recs
+
+    def issue_while_in_flight(recs, rng):
+        # the retirement of an instruction moved behind the wavefront's next issue
+        c = [i for i, r in enumerate(recs) if r['e'] == 'Retire' and r['k'] == 'alu']
+        rng.shuffle(c)
+        for i in c:
+            nxt = [j for j in issues(recs) if j > i and recs[j]['w'] == recs[i]['w']]
+            if nxt:
+                r = recs.pop(i)
+                recs.insert(nxt[0], r)   # after the pop the issue sits at nxt[0] - 1
+                return recs
+        return None
+
+    def second_fetch_while_fetching(recs, rng):
+        c = [i for i, r in enumerate(recs) if r['e'] == 'Fetch']
+        if not c:
+            return None
+        i = rng.choice(c)
+        recs.insert(i + 1, dict(recs[i]))
+        return recs
+
+    def fetch_wrong_line(recs, rng):
+        c = [i for i, r in enumerate(recs) if r['e'] == 'Fetch']
+        i = rng.choice(c)
+        w, a = recs[i]['w'], recs[i]['a']
+        recs[i]['a'] += 64
+        for r in recs[i + 1:]:
+            if r['e'] == 'FetchRsp' and r['w'] == w and r['a'] == a:
+                r['a'] += 64
+                break
+        return recs
+
+    def fetch_not_oldest(recs, rng):
+        c = [i for i, r in enumerate(recs) if r['e'] == 'Fetch' and len(r['all']) > 1]
+        if not c:
+            return None
+        i = rng.choice(c)
+        recs[i]['all'] = [list(x) for x in recs[i]['all']]
+        me = next(x for x in recs[i]['all'] if x[0] == recs[i]['w'])
+        oth = next(x for x in recs[i]['all'] if x[0] != recs[i]['w'])
+        oth[1], oth[2], oth[3], oth[4] = 0, 0, 0, me[4] - 1
+        return recs
+
+    def stale_line_appended(recs, rng):
+        c = [i for i, r in enumerate(recs) if r['e'] == 'FetchRsp']
+        recs[rng.choice(c)]['bufok'] = 0
+        return recs
+
+    def reference_path_differs(recs, rng):
+        c = [i for i, r in enumerate(recs) if r['e'] == 'RefPC' and len(r['pcs']) > 3]
+        i = rng.choice(c)
+        recs[i]['pcs'] = list(recs[i]['pcs'])
+        del recs[i]['pcs'][len(recs[i]['pcs']) // 2]
+        return recs
+
+    return [('instruction_skipped', skip_instruction), ('jump_without_branch', no_redirect_after_taken_branch),
+            ('decode_of_stale_buffer', decode_of_stale_buffer), ('issue_to_busy_unit', issue_to_busy_unit),
+            ('two_issues_same_unit_same_simd_same_cycle', two_issues_same_unit_same_simd),
+            ('younger_wavefront_issued_first', younger_wavefront_first), ('round_robin_order_broken', round_robin_order_broken),
+            ('retirement_dropped', retire_dropped), ('retired_twice', retire_twice), ('issue_while_previous_in_flight', issue_while_in_flight),
+            ('second_fetch_while_fetching', second_fetch_while_fetching), ('fetch_of_wrong_line', fetch_wrong_line),
+            ('fetch_not_oldest', fetch_not_oldest), ('stale_line_appended', stale_line_appended),
+            ('executed_addresses_differ_from_emulation', reference_path_differs)]
+
+
 # --------------------------------------------------------------------------- the check
 def _est_events(sc):
     """Rough number of trace lines a scenario produces (emulation + timing), to size the validation chunks."""
@@ -470,9 +693,19 @@ def _est_events(sc):
         k = sc['kernels'][w['k']]
         if k['mode'] == 'table':
             n += sum(80 + 3 * len(p) + 2 * i for i, p in enumerate(k['progs']))
+        elif k['mode'] == 'raw':
+            n += k['nwf'] * (8 + 3 * len(k['body']))
         else:
-            n += k['nwf'] * (80 + 3 * len(k['body']))
-    return 2 * n
+            ops, rep = 0, 1
+            for o in k['body']:
+                if o.startswith('loop:'):
+                    rep = int(o[5:])
+                elif o == 'endloop':
+                    ops, rep = ops + 4 * rep, 1
+                else:
+                    ops += rep
+            n += k['nwf'] * (80 + 3 * ops)
+    return (3 if sc.get('fe') else 2) * n
 
 
 def _run_scenarios(ctx, drv, scen, tag):
@@ -486,14 +719,15 @@ def _run_scenarios(ctx, drv, scen, tag):
     return t, stats
 
 
-def _run_and_validate(ctx, drv, scen, tag, files, totals, limit=70000):
+def _run_and_validate(ctx, drv, scen, tag, files, totals, limit=70000, specs=(TSPEC,)):
     """Run the scenarios and validate their traces, in chunks of about `limit` trace lines (one TLC run each)."""
     chunk, size, k = [], 0, 0
     for sc in scen + [None]:
         if sc is None or (chunk and size + _est_events(sc) > limit):
             if chunk:
                 t, st = _run_scenarios(ctx, drv, chunk, '%s%d' % (tag, k))
-                _validate(ctx, t, chunk, '%s%d' % (tag, k))
+                for spec in specs:
+                    _validate(ctx, t, chunk, '%s%d' % (tag, k), spec)
                 files.append(t)
                 for key, v in st.items():
                     totals[key] = totals.get(key, 0) + v
@@ -504,12 +738,12 @@ def _run_and_validate(ctx, drv, scen, tag, files, totals, limit=70000):
             size += _est_events(sc)
 
 
-def _validate(ctx, tfile, scen, tag):
+def _validate(ctx, tfile, scen, tag, spec=TSPEC):
     """One tolerant TLC run names every sub-trace the specification refuses (CUSchedTraceTol.cfg: a refused
     sub-trace is skipped up to the next Reset).  A refusal that matches an open known finding is recorded as such;
     any other one is confirmed in isolation with the strict configuration before it is reported."""
     parts = vlib.split_traces(tfile)
-    v = ctx.validate_trace(TSPEC['dirs'], TSPEC['module'], 'CUSchedTraceTol.cfg', tfile, timeout=TSPEC['timeout'])
+    v = ctx.validate_trace(spec['dirs'], spec['module'], spec['tol'], tfile, timeout=spec['timeout'])
     if not v['accepted']:
         raise vlib.Infra('tolerant trace validation did not reach the end of %s: highwater %s of %s\n%s' % (
             tag, v['highwater'], v['n'], v['res'].out[-1500:]))
@@ -535,11 +769,11 @@ def _validate(ctx, tfile, scen, tag):
         why = sorted(rj['why'])
         sig = {'kind': 'trace_rejected', 'violated': ','.join(why), 'event': ev.get('e')}
         sig.update(signature(recs, at, None))
-        what = '%s: real-code trace (%s, scenario %r) not a behaviour of CUSchedTrace.tla: %s at event #%d %s' % (
-            ctx.pid, sig.get('mode'), recs[0].get('name'), sig['violated'], at, json.dumps(ev)[:300])
+        what = '%s: real-code trace (%s, scenario %r) not a behaviour of %s: %s at event #%d %s' % (
+            ctx.pid, sig.get('mode'), recs[0].get('name'), spec['module'], sig['violated'], at, json.dumps(ev)[:300])
         case = recs[0].get('case')
         replay = {'driver': {'cmd': 'c14', 'scenarios': [scen[case]] if case is not None and case < len(scen) else scen, 'tag': tag},
-                  'trace_spec': [TSPEC['dirs'], TSPEC['module'], TSPEC['cfg']], 'failing_index': at, 'trace': recs}
+                  'trace_spec': [spec['dirs'], spec['module'], spec['cfg']], 'failing_index': at, 'trace': recs}
         if ctx.known_match(sig) is None:
             if new_here >= 2:
                 # two confirmed violations per trace file are enough; the others are only counted
@@ -548,27 +782,35 @@ def _validate(ctx, tfile, scen, tag):
             new_here += 1
             sub = os.path.join(ctx.scratch, 'sub_%s_%d.ndjson' % (tag, idx))
             vlib.write_ndjson(sub, recs)
-            v2 = ctx.validate_trace(TSPEC['dirs'], TSPEC['module'], TSPEC['cfg'], sub, timeout=TSPEC['timeout'])
+            v2 = ctx.validate_trace(spec['dirs'], spec['module'], spec['cfg'], sub, timeout=spec['timeout'])
             if v2['accepted']:
                 raise vlib.Infra('rejection at line %d of %s not reproduced on the isolated sub-trace' % (line, tag))
         ctx.report_failure(what, sig, replay)
     # cross-check of the tolerant mode itself: a sub-trace that logged a panic or ended with an unreported
     # work-group can never be a behaviour of the specification
     for k, (_, recs) in enumerate(parts):
-        if k not in bad_parts and any(r['e'] == 'Panic' or (r['e'] == 'Quiesce' and r.get('pending', 0) > 0) for r in recs):
+        if spec is TSPEC and k not in bad_parts and any(r['e'] == 'Panic' or (r['e'] == 'Quiesce' and r.get('pending', 0) > 0) for r in recs):
             raise vlib.Infra('tolerant trace validation accepted a sub-trace with a panic/hang (%s, case %s)' % (tag, recs[0].get('case')))
-    ctx.cov['traces_validated_against_impl'] += len(parts) - len(bad_parts)
+    if spec is TSPEC:
+        ctx.cov['traces_validated_against_impl'] += len(parts) - len(bad_parts)
+    else:
+        ctx.cov['front_end_traces_validated'] = ctx.cov.get('front_end_traces_validated', 0) + sum(
+            1 for k, (_, recs) in enumerate(parts) if k not in bad_parts and any(r['e'] == 'Fetch' for r in recs))
     return len(parts) - len(bad_parts)
 
 
-def selftest_batch(ctx, trace_path, corrs):
+def selftest_batch(ctx, trace_path, corrs, spec=TSPEC, key='binding_selftest', need=5):
     """Binding self-test (same contract as common.selftest_binding, one TLC run): every corrupted copy of an
     accepted timing sub-trace must be refused by the trace specification, otherwise the specification is vacuous."""
     import copy
-    parts = [recs for _, recs in vlib.split_traces(trace_path) if recs[0].get('mode') == 'timing' and len(recs) < 4000
+    paths = trace_path if isinstance(trace_path, (list, tuple)) else [trace_path]
+    parts = [recs for tp in paths for _, recs in vlib.split_traces(tp) if recs[0].get('mode') == 'timing' and len(recs) < 6000
+             and (spec is TSPEC or any(r['e'] == 'Fetch' for r in recs))
              and not any(r['e'] == 'Panic' or (r['e'] == 'Quiesce' and r.get('pending', 0) > 0) for r in recs)]
     rng = random.Random(ctx.seed)
     rng.shuffle(parts)
+    if spec is not TSPEC:
+        parts.sort(key=len)
     batch, names = [], []
     for name, fn in corrs:
         for recs in parts[:25]:
@@ -578,15 +820,15 @@ def selftest_batch(ctx, trace_path, corrs):
             names.append(name)
             batch.append(bad)
             break
-    if len(names) < 5:
+    if len(names) < need:
         if ctx.violations:
             # the real code already failed on these traces (reported above): there is no accepted trace left to corrupt
             ctx.notes.append('binding self-test skipped: only %d corruptions applicable to the traces of a failing tree' % len(names))
             return []
         raise vlib.Infra('binding self-test: only %d corruptions applicable' % len(names))
-    p = os.path.join(ctx.scratch, 'selftest.ndjson')
+    p = os.path.join(ctx.scratch, 'selftest_%s.ndjson' % key)
     vlib.write_ndjson(p, [r for recs in batch for r in recs])
-    v = ctx.validate_trace(TSPEC['dirs'], TSPEC['module'], 'CUSchedTraceTol.cfg', p, timeout=TSPEC['timeout'])
+    v = ctx.validate_trace(spec['dirs'], spec['module'], spec['tol'], p, timeout=spec['timeout'])
     out = v['res'].out
     i = max(out.find('<< "REJECTS"'), out.find('<<"REJECTS"'))
     if not v['accepted'] or i < 0:
@@ -601,10 +843,10 @@ def selftest_batch(ctx, trace_path, corrs):
         lo, hi = starts[k], starts[k] + len(batch[k])
         mine = [rj for rj in rej if lo <= rj['l'] < hi]
         if not mine:
-            raise vlib.Infra('binding self-test: corruption %r was ACCEPTED by CUSchedTrace.tla (vacuous trace spec)' % name)
+            raise vlib.Infra('binding self-test: corruption %r was ACCEPTED by %s (vacuous trace spec)' % (name, spec['module']))
         results.append({'corruption': name, 'rejected_at': mine[0]['l'] - lo + 1, 'violated': sorted(mine[0]['why'])})
-    ctx.cov['binding_selftest'] = results
-    ctx.log('binding self-test: %s' % ', '.join('%s->%s' % (r['corruption'], '+'.join(r['violated'])) for r in results))
+    ctx.cov[key] = results
+    ctx.log('binding self-test (' + spec['module'] + '): %s' % ', '.join('%s->%s' % (r['corruption'], '+'.join(r['violated'])) for r in results))
     return results
 
 
@@ -677,6 +919,14 @@ def run(ctx, selftest=False):
     t2 = files[nplain]
     _run_and_validate(ctx, drv, early, 'early', files, tot)
 
+    # 3b. co-resident groups in lock step (several internal instructions evaluated in one scheduler pass)
+    lock = lockstep_scenarios(rng, thorough)
+    _run_and_validate(ctx, drv, lock, 'lock', files, tot)
+    ctx.cov['lockstep_scenarios'] = len(lock)
+
+    # 3c. the front end: fetch, instruction buffer, decode, issue arbitration, retirement
+    front_end(ctx, drv, rng, thorough, W, files, tot)
+
     # 4. system level: the same kernels through Driver -> CP -> dispatcher -> CU of the shipped platforms
     sysc = sys_scenarios(rng, thorough)
     _run_and_validate(ctx, drv, [s for s, _ in sysc], 'sys', files, tot)
@@ -704,6 +954,42 @@ def run(ctx, selftest=False):
         'what the real decoder returned',
         'reference for values and instruction paths = the real emulation CU on the same work-groups',
     ]
+
+
+FE_DEVIATIONS = [('MC_CUFront_dev_issue.cfg', 'IssueWhileInFlight', 'DecodeAtPC'),
+                 ('MC_CUFront_dev_noflush.cfg', 'NoFlushOnTakenBranch', 'NoFlag'),
+                 ('MC_CUFront_dev_stale.cfg', 'StaleFetchAppended', 'BufferConsistent'),
+                 ('MC_CUFront_dev_fetch.cfg', 'FetchWhileFetching', 'NoFlag')]
+
+
+def front_end(ctx, drv, rng, thorough, W, files, tot):
+    """Component part "front end": CUFront.tla model-checked (and its named deviations shown to fail), then traces of
+    the real CU with the front-end facts validated against CUSchedTrace.tla and CUFrontTrace.tla."""
+    r = ctx.tlc_expect_ok(['cusched'], 'MC_CUFront.tla', 'MC_CUFront_small.cfg', timeout=900, workers=min(W, 4))
+    ctx.log('MC_CUFront_small (2 wavefronts on one SIMD; 6 instructions, one straddling two lines, a forward branch, a barrier): '
+            '%d distinct states, depth %d' % (r.distinct, r.depth))
+    r = ctx.tlc_expect_ok(['cusched'], 'MC_CUFront.tla', 'MC_CUFront_2simd.cfg', timeout=900, workers=min(W, 4))
+    ctx.log('MC_CUFront_2simd (one wavefront on each of 2 SIMDs): %d distinct states' % r.distinct)
+    if thorough:
+        for cfg in ('MC_CUFront.cfg', 'MC_CUFront_live.cfg', 'MC_CUFront_3wf.cfg'):
+            r = ctx.tlc_expect_ok(['cusched'], 'MC_CUFront.tla', cfg, timeout=3000, workers=W)
+            ctx.log('%s: %d distinct states' % (cfg, r.distinct))
+    failed = []
+    # quick tier: two of the four deviations (which two depends on the seed), thorough: all
+    devs = FE_DEVIATIONS if thorough else [FE_DEVIATIONS[(ctx.seed + k) % 4] for k in (0, 2)]
+    for cfg, dev, inv in devs:
+        r = ctx.tlc(['cusched'], 'MC_CUFront.tla', cfg, timeout=600, workers=1)
+        if inv not in r.violated:
+            raise vlib.Infra('front-end model with deviation %s does not violate %s (violated: %s, error: %s)' % (dev, inv, r.violated, r.error))
+        failed.append('%s->%s' % (dev, inv))
+    ctx.log('front-end deviations refused by the model: %s' % ', '.join(failed))
+    ctx.cov['front_end_deviations_refused'] = failed
+    fe = fe_scenarios(rng, thorough)
+    n0 = len(files)
+    _run_and_validate(ctx, drv, fe, 'fe', files, tot, limit=60000, specs=(TSPEC, FSPEC))
+    ctx.cov['front_end_scenarios'] = len(fe)
+    if not ctx.violations:
+        selftest_batch(ctx, files[n0:], fe_corruptions(), spec=FSPEC, key='front_end_binding_selftest', need=12)
 
 
 def sys_scenarios(rng, thorough):
@@ -742,5 +1028,6 @@ def replay(ctx, path):
         scen = [scen[case]]
     t, _ = _run_scenarios(ctx, drv, scen, 'replay')
     before = len(ctx.violations)
-    _validate(ctx, t, scen, 'replay')
+    spec = FSPEC if rp.get('trace_spec', [None, None])[1] == FSPEC['module'] else TSPEC
+    _validate(ctx, t, scen, 'replay', spec)
     return 1 if len(ctx.violations) > before else 0
